@@ -416,9 +416,9 @@ def run_case(case: Dict) -> CaseResult:
                 obj = cut(DatabaseClientConnection, connection_id=cid, parent_node=cnodes[i])
                 handle_ok = usable(i)
             else:
-                ent = pool[idx % len(pool)]
+                ent = pool[-1] if (hk == "last" or idx == 99) else pool[idx % len(pool)]  # latest issued handle
                 cid = ent["cid"]
-                if hk == "live":
+                if hk in ("live", "last"):
                     obj = ent["obj"]
                     handle_ok = ent["active"] and usable(i)
                     if obj.is_active != ent["active"]:
@@ -426,7 +426,7 @@ def run_case(case: Dict) -> CaseResult:
                 else:  # clone: a fresh public handle object carrying an id the service once issued
                     obj = cut(DatabaseClientConnection, connection_id=cid, parent_node=cnodes[i])
                     handle_ok = usable(i)
-            if hk == "forged" or cid not in M.open or (hk == "live" and not handle_ok):
+            if hk == "forged" or cid not in M.open or (hk in ("live", "last") and not handle_ok):
                 flags["bad_handle"] = True
             down = not (node_on() and running())
             guard = unavailable_guard(full=(not node_on()) or M.blocked["pg"]) if (down or M.blocked["pg"]) else None
@@ -441,7 +441,7 @@ def run_case(case: Dict) -> CaseResult:
             if not pool:
                 res.label("skipped:no-handle")
                 return
-            ent = pool[idx % len(pool)]
+            ent = pool[-1] if idx == 99 else pool[idx % len(pool)]  # 99 = the handle issued most recently
             delivered = reach(i)
             was = ent["active"] and usable(i)
             cut(ent["obj"].disconnect)
@@ -635,7 +635,7 @@ def op_strategy():
     hidx = st.integers(0, 3)
     connect = st.tuples(st.just("connect"), ci, st.sampled_from(["right", "right", "right", "wrong", "none"]))
     query = st.tuples(
-        st.just("query"), ci, st.sampled_from(["live", "live", "live", "clone", "clone", "forged"]), hidx,
+        st.just("query"), ci, st.sampled_from(["live", "live", "last", "last", "clone", "clone", "forged"]), hidx,
         st.sampled_from(["SELECT", "SELECT", "INSERT", "DELETE", "ENCRYPT", "UNKNOWN"]),
     )
     return st.one_of(
@@ -646,13 +646,13 @@ def op_strategy():
         st.tuples(st.just("disconnect"), ci, hidx),
         st.tuples(st.just("uninstall"), ci),
         st.tuples(st.just("install"), ci),
-        st.tuples(st.just("svc"), st.sampled_from(["stop", "start", "start", "pause", "resume", "resume", "restart", "fix"])),
-        st.tuples(st.just("svc"), st.sampled_from(["stop", "start", "start", "pause", "resume", "resume", "restart", "fix"])),
+        st.tuples(st.just("svc"), st.sampled_from(["stop", "start", "start", "pause", "resume", "resume", "restart", "fix", "fix"])),
         st.just(("backup",)),
         st.just(("restore",)),
         st.just(("restore",)),
         st.just(("repair",)),
-        st.tuples(st.just("power"), st.sampled_from([DB, DB, BK]), st.sampled_from(["off", "on", "on"])),
+        st.tuples(st.just("power"), st.sampled_from([DB, DB, BK]), st.sampled_from(["off", "on", "on", "on"])),
+        st.tuples(st.just("acl"), st.sampled_from(["pg", "ftp"]), st.sampled_from(["block", "block", "unblock"])),
         st.tuples(st.just("acl"), st.sampled_from(["pg", "ftp"]), st.sampled_from(["block", "unblock", "unblock"])),
         st.tuples(st.just("tick"), st.integers(1, 3)),
         st.tuples(st.just("tick"), st.integers(1, 3)),
@@ -676,16 +676,34 @@ def snippet_strategy():
         # fill the service, overflow it, free a slot, try again
         st.tuples(ci, ci, hidx).map(
             lambda t: [["connect", t[0], "right"]] * 2 + [["connect", t[1], "right"]] * 2
-            + [["disconnect", t[0], t[2]], ["connect", t[1], "right"], ["query", t[1], "live", 5, "SELECT"]]
+            + [["disconnect", t[0], t[2]], ["connect", t[1], "right"], ["query", t[1], "last", 0, "SELECT"]]
         ),
         # wrong password, restart of some kind, right password
         st.tuples(ci, cycle).map(
-            lambda t: [["connect", t[0], "wrong"]] + t[1] + [["connect", t[0], "right"], ["query", t[0], "live", 7, "SELECT"]]
+            lambda t: [["connect", t[0], "wrong"]] + t[1] + [["connect", t[0], "right"], ["query", t[0], "last", 0, "SELECT"]]
         ),
         # damage, read, restore or repair, read
         st.tuples(ci, dmg, st.sampled_from([["restore"], ["repair"], ["svc", "fix"]])).map(
-            lambda t: [["connect", t[0], "right"], ["backup"], ["query", t[0], "live", 7, t[1]],
-                       ["query", t[0], "live", 7, "SELECT"], t[2], ["tick", 3], ["query", t[0], "live", 7, "SELECT"]]
+            lambda t: [["connect", t[0], "right"], ["backup"], ["query", t[0], "last", 0, t[1]],
+                       ["query", t[0], "last", 0, "SELECT"], t[2], ["tick", 3], ["query", t[0], "last", 0, "SELECT"]]
+        ),
+        # bring everything back up
+        st.just([["svc", "resume"], ["svc", "start"], ["power", DB, "on"], ["power", BK, "on"], ["acl", "pg", "unblock"],
+                 ["acl", "ftp", "unblock"], ["tick", 3], ["tick", 3]]),
+        # damage twice with a repair / restore in between
+        st.tuples(ci, dmg, dmg, st.sampled_from([["restore"], ["repair"], ["backup"]])).map(
+            lambda t: [["connect", t[0], "right"], ["query", t[0], "last", 0, t[1]], t[3], ["query", t[0], "last", 0, "SELECT"],
+                       ["query", t[0], "last", 0, t[2]], ["restore"], ["query", t[0], "last", 0, "SELECT"]]
+        ),
+        # restore across a blocked / powered-off backup path
+        st.tuples(ci, dmg, st.sampled_from([
+            ([["acl", "ftp", "block"]], [["acl", "ftp", "unblock"]]),
+            ([["power", BK, "off"], ["tick", 3]], [["power", BK, "on"], ["tick", 3]]),
+            ([["acl", "pg", "block"]], [["acl", "pg", "unblock"]]),
+        ])).map(
+            lambda t: [["connect", t[0], "right"], ["backup"], ["query", t[0], "last", 0, t[1]]] + t[2][0]
+            + [["restore"], ["query", t[0], "last", 0, "SELECT"], ["connect", t[0], "right"]] + t[2][1]
+            + [["restore"], ["query", t[0], "last", 0, "SELECT"]]
         ),
         # close, then use the id again through a fresh handle object
         st.tuples(ci, hidx, dmg).map(
@@ -693,20 +711,32 @@ def snippet_strategy():
                        ["query", t[0], "live", t[1], t[2]]]
         ),
         # close while the server cannot hear it, then look at what the service still accepts
-        st.tuples(ci, hidx, st.sampled_from([[["acl", "pg", "block"]], [["svc", "stop"]], [["power", DB, "off"]]])).map(
-            lambda t: [["connect", t[0], "right"]] + t[2] + [["disconnect", t[0], t[1]], ["query", t[0], "clone", t[1], "DELETE"],
-                       ["acl", "pg", "unblock"], ["svc", "start"], ["query", t[0], "clone", t[1], "SELECT"]]
+        st.tuples(
+            ci,
+            st.sampled_from(
+                [
+                    ([["acl", "pg", "block"]], [["acl", "pg", "unblock"]]),
+                    ([["svc", "stop"]], [["svc", "start"]]),
+                    ([["svc", "pause"]], [["svc", "resume"]]),
+                    ([["power", DB, "off"]], [["tick", 3], ["power", DB, "on"], ["tick", 3]]),
+                ]
+            ),
+        ).map(
+            lambda t: [["connect", t[0], "right"]] + t[1][0]
+            + [["disconnect", t[0], 99], ["query", t[0], "clone", 99, "DELETE"]] + t[1][1]
+            + [["query", t[0], "clone", 99, "SELECT"], ["query", t[0], "clone", 99, "ENCRYPT"]]
         ),
         # everything while unavailable
-        st.tuples(ci, cycle.map(lambda c: c[:1]), dmg).map(
-            lambda t: t[1] + [["connect", t[0], "right"], ["query", t[0], "live", 0, t[2]], ["restore"], ["execute", t[0]]]
+        st.tuples(ci, cycle, dmg).map(
+            lambda t: [["connect", t[0], "right"]] + t[1][:1]
+            + [["connect", t[0], "right"], ["query", t[0], "last", 0, t[2]], ["restore"], ["execute", t[0]]] + t[1][1:]
         ),
     )
 
 
 def case_strategy(max_len: int, caps=(1, 2, 2, 3, 3, 100)):
     piece = st.one_of(op_strategy().map(lambda o: [o]), op_strategy().map(lambda o: [o]), snippet_strategy())
-    ops = st.lists(piece, min_size=4, max_size=14).map(lambda ps: [list(o) for p_ in ps for o in p_][:max_len])
+    ops = st.lists(piece, min_size=5, max_size=16).map(lambda ps: [list(o) for p_ in ps for o in p_][:max_len])
     return st.fixed_dictionaries(
         {
             "topo": st.sampled_from(["routed", "routed", "lan"]),
@@ -755,8 +785,11 @@ EXH_EXTRA = [  # thorough tier only
 ]
 
 
-def exh_cases(alphabet, depth):
-    for pre in PRELUDES:
+PRELUDE_FULL = [["connect", 0, "right"], ["connect", 1, "right"], ["backup"]]  # thorough: starts at max_sessions
+
+
+def exh_cases(alphabet, depth, preludes=None):
+    for pre in PRELUDES if preludes is None else preludes:
         for seq in itertools.product(alphabet, repeat=depth):
             c = dict(EXH_PARAMS)
             c["ops"] = [list(o) for o in pre] + [list(o) for o in seq]
@@ -765,16 +798,18 @@ def exh_cases(alphabet, depth):
 
 def worker(ctx: Ctx):
     if ctx.tier == "quick":
-        alphabet, depth = EXH_ALPHABET, 3
+        cases = exh_cases(EXH_ALPHABET, 3)
+        domain = (
+            f"{len(PRELUDES)} preludes x all {len(EXH_ALPHABET)}^3 sequences over the {len(EXH_ALPHABET)}-symbol alphabet"
+        )
     else:
-        alphabet, depth = EXH_ALPHABET + EXH_EXTRA, 3
-    enum_run(ctx, exh_cases(alphabet, depth), run_case)
+        big = EXH_ALPHABET + EXH_EXTRA
+        cases = exh_cases(big, 3, PRELUDES + [PRELUDE_FULL])
+        domain = f"{len(PRELUDES) + 1} preludes x all {len(big)}^3 sequences over the {len(big)}-symbol alphabet"
+    enum_run(ctx, cases, run_case)
     ctx.extra["exhaustive"] = True
-    ctx.extra["exhaustive_domain"] = (
-        f"{len(PRELUDES)} preludes x all {len(alphabet)}^{depth} sequences over the {len(alphabet)}-symbol alphabet "
-        f"(routed, 2 clients, max_sessions 2, password set)"
-    )
-    n = 100 if ctx.tier == "quick" else 4000
+    ctx.extra["exhaustive_domain"] = domain + " (routed, 2 clients, max_sessions 2, password set)"
+    n = 100 if ctx.tier == "quick" else 2000
     # exclusion by construction: while the sticky-OVERWHELMED finding is open, reaching capacity degrades the rest of a
     # case (positive expectations are suspended), so capacity is reached less often; cases that did are counted.
     caps = (2, 3, 3, 100, 100, 100) if FINDING_STICKY in ctx.excl else (1, 2, 2, 3, 3, 100)
